@@ -65,6 +65,9 @@ def monitor(case, tr, raw):
             # do_maintenance reclaims the finished predecessor before anything else
             return ("finished fiber %d was switched away from on thread %d and never reclaimed: the successor's "
                     "maintenance moved on without destroying it" % (owed[t], t))
+        if loc == 959:
+            return ("thread %d pushed / popped fiber %d on another kernel thread's run queue: a run queue has one owner "
+                    "(only steals may come from other threads)" % (t, val))
         if loc == 910 and val == 3:
             finished = True
         elif loc == EV_CREATE_T:
@@ -192,7 +195,20 @@ def gen_cases(ctx, tier):
             progs.append(p)
         length = rng.randint(50, 2500)
         cases.append(core.fmt_case([60000, nk], progs, core.random_sched(rng, nk, length, rng.randrange(3))))
-    ctx.coverage["case_distribution"] = {"random_programs": n}
+    # join/detach-heavy programs: finishing fibers that wait for their joiner (and are stolen meanwhile), joiners woken
+    # by a fiber that has migrated: the wake-up paths where a stale kernel-thread pointer would be used
+    nj = n // 2
+    for _ in range(nj):
+        nk = rng.choice([2, 2, 3, 3, 4])
+        nf = rng.randint(1, 5)
+        progs = [[(rng.choice([10, 10, 10, 11, 1, 3, 2]), rng.randint(0, 1)) for _ in range(rng.randint(1, 6))]
+                 for _f in range(nf)]
+        cases.append(core.fmt_case([60000, nk], progs, core.random_sched(rng, nk, rng.randint(50, 2500), rng.randrange(3))))
+    for _ in range(n):
+        nk = rng.choice([2, 2, 3])
+        progs = [[(10, rng.randint(0, 1))] * rng.randint(1, 4) for _f in range(rng.randint(1, 2))]
+        cases.append(core.fmt_case([60000, nk], progs, core.random_sched(rng, nk, rng.randint(30, 1200), rng.randrange(3))))
+    ctx.coverage["case_distribution"] = {"random_programs": n, "join_heavy_programs": nj, "create_join_only": n}
     return cases
 
 
